@@ -207,7 +207,7 @@ class ScopeNameFinder:
 
     def _find_module(self, module_name):
         dots = 0
-        while module_name[dots] == ".":
+        while dots < len(module_name) and module_name[dots] == ".":
             dots += 1
         return rope.base.pynames.ImportedModule(
             self.module_scope.pyobject, module_name[dots:], dots
